@@ -35,6 +35,10 @@ enum Op {
     /// a peer (not the driver) sends NameAcquired / NameLost to us
     ForgeAcquired(u8),
     ForgeLost(u8),
+    /// the program calls org.freedesktop.DBus.RequestName itself (as through `fdo::DBusProxy`), bypassing the
+    /// connection's bookkeeping; only performed while the connection does not hold the name, so that the next
+    /// `request_name` is answered `AlreadyOwner` *by the bus*
+    DirectRequest(u8, u8),
 }
 
 #[derive(Clone, Debug, Serialize, Deserialize, PartialEq)]
@@ -45,7 +49,7 @@ struct P {
 }
 
 #[derive(Clone, Copy, Debug, PartialEq)]
-enum Status {
+pub enum Status {
     None,
     Owner,
     Queued,
@@ -62,7 +66,7 @@ impl Scenario for C36Scn {
         "C36"
     }
     fn rule(&self) -> &'static str {
-        "a bus connection (real client handshake + Hello against the fake bus) runs a history of 2..10 operations separated by quiescence: request_name_with_flags (every flag combination), release_name, and bus-side events: another connection owns / releases / takes over a name (the fake bus then emits the genuine NameAcquired / NameLost it would emit), forged NameAcquired / NameLost from a peer; bus replies carry seeded delays; oracle = name-status model {none, owner, queued}: AlreadyOwner / InQueue are answered locally (no RequestName on the bus) exactly when the model says so, otherwise one RequestName reaches the bus and its reply is reported; release_name is true iff held or queued; forged signals change nothing; non-trivial = the history contains a genuine bus-side ownership change or a forged signal while a name is held or queued"
+        "a bus connection (real client handshake + Hello against the fake bus) runs a history of 2..12 operations separated by quiescence (half of the histories drawn blindly, half guided by a simulation of the bus so that operations mostly have an effect): request_name_with_flags (every flag combination), release_name, a RequestName sent to the bus directly while the connection does not hold the name (so that the bus later answers AlreadyOwner itself; the same happens when a name lost to a replacement is inherited back from the queue), and bus-side events: another connection owns / releases / takes over a name (the fake bus then emits the genuine NameAcquired / NameLost it would emit), forged NameAcquired / NameLost from a peer; bus replies carry seeded delays; oracle = name-status model {none, owner, queued}: AlreadyOwner / InQueue are answered locally (no RequestName on the bus) exactly when the model says so, otherwise one RequestName reaches the bus and its reply is reported; release_name is true iff held or queued; forged signals change nothing; non-trivial = the history contains a genuine bus-side ownership change or a forged signal while a name is held or queued"
     }
     fn runs(&self, tier: Tier) -> u64 {
         match tier {
@@ -78,20 +82,94 @@ impl Scenario for C36Scn {
     }
 
     fn generate(&self, rng: &mut Rng, _idx: u64, _tier: Tier) -> (SchedCfg, Value) {
-        let n = rng.range(2, 10);
+        let n = rng.range(2, 12);
         let mut ops = vec![];
+        // Half of the histories are drawn blindly; the other half follows a simulation of the bus and of the
+        // expected bookkeeping and prefers operations that have an effect in the current state (so that deep
+        // states - a name lost to a replacement, inherited back from the queue, requested again - are reached).
+        let guided = rng.chance(1, 2);
+        let mut sim: Vec<(fakebus::NameState, Status)> = vec![(Default::default(), Status::None), (Default::default(), Status::None)];
         for _ in 0..n {
-            let name = rng.below(2) as u8;
-            ops.push(match rng.below(12) {
-                0..=3 => Op::Request(name, rng.below(8) as u8),
-                4..=5 => Op::Release(name),
-                6 => Op::OtherOwns(name, rng.chance(1, 2)),
-                7 => Op::OtherReleases(name),
-                8 => Op::OtherTakes(name),
-                9 => Op::ForgeAcquired(name),
-                10 => Op::ForgeLost(name),
-                _ => Op::Request(name, 1),
-            });
+            let name = if guided && rng.chance(3, 4) { 0 } else { rng.below(2) as u8 };
+            let op = if !guided {
+                match rng.below(13) {
+                    0..=3 => Op::Request(name, rng.below(8) as u8),
+                    4..=5 => Op::Release(name),
+                    6 => Op::OtherOwns(name, rng.chance(1, 2)),
+                    7 => Op::OtherReleases(name),
+                    8 => Op::OtherTakes(name),
+                    9 => Op::ForgeAcquired(name),
+                    10 => Op::ForgeLost(name),
+                    11 => Op::DirectRequest(name, rng.below(8) as u8),
+                    _ => Op::Request(name, 1),
+                }
+            } else {
+                let (bus, local) = &sim[name as usize];
+                let flags = |rng: &mut Rng| (rng.below(8) as u8) | if rng.chance(1, 2) { 1 } else { 0 };
+                let mine_replaceable = bus.owner == Owner::Me && bus.my_flags & fakebus::FLAG_ALLOW_REPLACEMENT != 0;
+                let weights: [(u64, u8); 8] = [
+                    (if *local == Status::None { 30 } else { 8 }, 0),
+                    (if *local != Status::None { 12 } else { 2 }, 1),
+                    (if bus.owner == Owner::Nobody { 15 } else { 1 }, 2),
+                    (if matches!(bus.owner, Owner::Other(_)) { 20 } else { 1 }, 3),
+                    (if mine_replaceable { 30 } else if bus.owner == Owner::Nobody { 8 } else { 1 }, 4),
+                    (if *local != Status::None { 6 } else { 2 }, 5),
+                    (if *local != Status::None { 6 } else { 2 }, 6),
+                    (if *local == Status::None { 10 } else { 0 }, 7),
+                ];
+                let total: u64 = weights.iter().map(|w| w.0).sum();
+                let mut pick = rng.below(total);
+                let mut kind = 0;
+                for (wt, k) in weights {
+                    if pick < wt {
+                        kind = k;
+                        break;
+                    }
+                    pick -= wt;
+                }
+                match kind {
+                    0 => Op::Request(name, flags(rng)),
+                    1 => Op::Release(name),
+                    2 => Op::OtherOwns(name, rng.chance(1, 2)),
+                    3 => Op::OtherReleases(name),
+                    4 => Op::OtherTakes(name),
+                    5 => Op::ForgeAcquired(name),
+                    6 => Op::ForgeLost(name),
+                    _ => Op::DirectRequest(name, flags(rng)),
+                }
+            };
+            // advance the simulation
+            let (bus, local) = &mut sim[name as usize];
+            let mut signals = vec![];
+            match op {
+                Op::Request(_, f) if *local == Status::None => {
+                    let (code, _) = fakebus::request_name(bus, f as u32);
+                    *local = match code {
+                        1 | 4 => Status::Owner,
+                        2 => Status::Queued,
+                        _ => Status::None,
+                    };
+                }
+                Op::Release(_) if *local != Status::None => {
+                    fakebus::release_name(bus);
+                    *local = Status::None;
+                }
+                Op::OtherOwns(_, allows) if bus.owner == Owner::Nobody => bus.owner = Owner::Other(allows),
+                Op::OtherReleases(_) => signals = fakebus::other_releases(bus),
+                Op::OtherTakes(_) => signals = fakebus::other_takes(bus),
+                Op::DirectRequest(_, f) if *local == Status::None => {
+                    fakebus::request_name(bus, f as u32);
+                }
+                _ => {}
+            }
+            for sg in signals {
+                match (sg, *local) {
+                    ("NameAcquired", Status::Queued) => *local = Status::Owner,
+                    ("NameLost", Status::Owner) => *local = Status::None,
+                    _ => {}
+                }
+            }
+            ops.push(op);
         }
         let sched = SchedCfg::generate(rng, &["monitor_name", "socket reader"]);
         (sched, j(&P { ops, link: gen_read_cfg(rng), bus_delays: rng.chance(2, 3) }))
@@ -139,6 +217,7 @@ impl Scenario for C36Scn {
 
         let mut model: BTreeMap<u8, Status> = BTreeMap::new();
         let mut nontrivial = false;
+        let mut direct_granted = false;
         let mut verdict = None;
         for (i, op) in p.ops.iter().enumerate() {
             let calls_before = bus.lock().unwrap().calls.len();
@@ -188,6 +267,10 @@ impl Scenario for C36Scn {
                                 verdict = Some(Verdict::fail("status", "request-while-None-no-bus-call", format!("op {i} {op:?}: the model says {name} is not held, so one RequestName must reach the bus; bus saw {new_calls:?}, result {r:?}")));
                             } else {
                                 let code = new_calls[0].3;
+                                if code == 4 {
+                                    w.count("probe.bus_answered_already_owner");
+                                    let _ = direct_granted;
+                                }
                                 if new_calls[0].2 != flags as u32 {
                                     verdict = Some(Verdict::fail("flags", "flags-not-forwarded", format!("op {i}: flags {flags} requested, bus saw {}", new_calls[0].2)));
                                 }
@@ -223,6 +306,20 @@ impl Scenario for C36Scn {
                                 }
                                 model.insert(n, Status::None);
                             }
+                        }
+                    }
+                }
+                Op::DirectRequest(n, flags) => {
+                    if held(&model, n) == Status::None {
+                        let c2 = conn.clone();
+                        let t = w.spawn("client-direct-request", async move {
+                            let _ = c2.call_method(Some(fakebus::DRIVER), fakebus::DRIVER_PATH, Some(fakebus::DRIVER), "RequestName", &(NAMES[n as usize], flags as u32)).await;
+                        });
+                        w.run();
+                        drop(t);
+                        let granted = bus.lock().unwrap().calls[calls_before..].iter().any(|c| c.0 == "RequestName" && (c.3 == 1 || c.3 == 4));
+                        if granted {
+                            direct_granted = true;
                         }
                     }
                 }
